@@ -33,7 +33,7 @@ func init() {
 			"(b) navigation: all generator scripts (variable-rich, weight <= W, including send-all statements over sources the checker rejects) x EVERY position (counted in UTF-16 code units, the protocol's default encoding; the scripts contain characters outside the BMP), the diagnostics published on didOpen against analysis.CheckSource called directly, and those of weight <= W-1 also laid out one token per line with falling / with rising indentation x EVERY position of every line: inside a use of a declared variable => hover names that variable and its declared type over the use's range, definition is the exact range of the declaration; on a builtin function name => that builtin; elsewhere => nothing (the position at a token's end may answer either way); " +
 			"non-trivial = the history changes some document at least once after opening it or touches two URIs / the script has >= 1 variable use; distinct = history / script text",
 		Assumptions: []string{"histories are well-formed: the first notification for a URI is didOpen, later ones didChange, every didChange carries >= 1 content change", "symbol lists are compared as sets (the protocol does not order them)"},
-		QuickBudget: 150 * time.Second,
+		QuickBudget: 240 * time.Second,
 		ThoroBudget: 12 * time.Minute,
 		Run:         runC19,
 	})
